@@ -24,7 +24,7 @@ vars == <<workers, groups, plans, nplans, last>>
 NoPl == [w |-> "none", st |-> "none", epoch |-> 0]
 NoW == [reg |-> FALSE, status |-> "ready", assigned |-> <<>>, running |-> 0, fresh |-> TRUE]
 Init == /\ workers = [w \in W |-> NoW]
-        /\ groups = [g \in G |-> [exists |-> FALSE, pl |-> [p \in Groups[g] |-> NoPl]]]
+        /\ groups = [g \in G |-> [exists |-> FALSE, inc |-> 0, pl |-> [p \in Groups[g] |-> NoPl]]]
         /\ plans = {} /\ nplans = 0 /\ last = [k |-> "none"]
 
 Avail(w) == workers[w].reg /\ workers[w].status = "ready" /\ workers[w].running < MaxPipes      \* WorkerNode::is_available
@@ -64,7 +64,8 @@ PlanDeployWith(g, pin, tasks) ==      \* pin : pipeline -> worker or "none" ; ta
   /\ nplans' = nplans + 1 /\ last' = [k |-> "plan_deploy", tasks |-> tasks, pin |-> pin] /\ UNCHANGED <<workers, groups>>
 CommitDeploy(pl, ok) ==   \* ok : pipeline -> BOOLEAN (per-pipeline outcome reported by the workers)
   /\ pl \in plans /\ pl.kind = "deploy" /\ plans' = plans \ {pl}
-  /\ groups' = [groups EXCEPT ![pl.g] = [exists |-> TRUE,
+  \* every creation gets a fresh group id; inc counts the creations of this name (the group a stale plan refers to is identified by it)
+  /\ groups' = [groups EXCEPT ![pl.g] = [exists |-> TRUE, inc |-> @.inc + 1,
                  pl |-> [p \in Groups[pl.g] |-> [w |-> pl.tasks[p], st |-> IF ok[p] THEN "running" ELSE "failed", epoch |-> 0]]]]
   /\ workers' = [w \in W |->
         LET mine == SelectSeq(Order, LAMBDA p : p \in Groups[pl.g] /\ ok[p] /\ pl.tasks[p] = w) IN
@@ -73,7 +74,7 @@ CommitDeploy(pl, ok) ==   \* ok : pipeline -> BOOLEAN (per-pipeline outcome repo
 
 \* ---- teardown: the plan snapshots the placements that have a pipeline id (i.e. were deployed successfully) ----
 PlanTeardown(g) == /\ groups[g].exists /\ nplans < MaxPlans
-                   /\ plans' = plans \cup {[kind |-> "teardown", g |-> g, snap |-> groups[g].pl, id |-> nplans]}
+                   /\ plans' = plans \cup {[kind |-> "teardown", g |-> g, snap |-> groups[g].pl, inc |-> groups[g].inc, id |-> nplans]}
                    /\ nplans' = nplans + 1 /\ last' = [k |-> "plan_teardown"] /\ UNCHANGED <<workers, groups>>
 CommitTeardown(pl) ==
   /\ pl \in plans /\ pl.kind = "teardown" /\ plans' = plans \ {pl}
@@ -84,18 +85,20 @@ CommitTeardown(pl) ==
           THEN [workers[w] EXCEPT !.assigned = SelectSeq(@, LAMBDA x : x \notin mine),
                                   !.running = IF @ >= Cardinality(mine) THEN @ - Cardinality(mine) ELSE 0]
           ELSE workers[w]]
-  /\ groups' = [groups EXCEPT ![pl.g] = [exists |-> FALSE, pl |-> [p \in Groups[pl.g] |-> NoPl]]]
+  \* the group is removed by ITS id: a plan made for an earlier creation of the name leaves a later one alone (the worker-side
+  \* updates above go by pipeline name and are applied regardless)
+  /\ groups' = IF groups[pl.g].inc = pl.inc THEN [groups EXCEPT ![pl.g] = [exists |-> FALSE, inc |-> @.inc, pl |-> [p \in Groups[pl.g] |-> NoPl]]] ELSE groups
   /\ last' = [k |-> "commit_teardown"] /\ UNCHANGED nplans
 
 \* ---- migration of one pipeline to a target worker ----
 PlanMigrate(p, t) == LET g == GroupOf(p) IN
                      /\ groups[g].exists /\ groups[g].pl[p].st # "none" /\ workers[t].reg /\ nplans < MaxPlans
-                     /\ plans' = plans \cup {[kind |-> "migrate", g |-> g, p |-> p, src |-> groups[g].pl[p].w, tgt |-> t, id |-> nplans]}
+                     /\ plans' = plans \cup {[kind |-> "migrate", g |-> g, p |-> p, src |-> groups[g].pl[p].w, tgt |-> t, inc |-> groups[g].inc, id |-> nplans]}
                      /\ nplans' = nplans + 1 /\ last' = [k |-> "plan_migrate"] /\ UNCHANGED <<workers, groups>>
 CommitMigrate(pl, ok) ==
   /\ pl \in plans /\ pl.kind = "migrate" /\ plans' = plans \ {pl}
   /\ IF ~ok THEN UNCHANGED <<workers, groups>>
-     ELSE /\ groups' = IF groups[pl.g].exists
+     ELSE /\ groups' = IF groups[pl.g].exists /\ groups[pl.g].inc = pl.inc
                          THEN [groups EXCEPT ![pl.g].pl[pl.p] = [w |-> pl.tgt, st |-> "running", epoch |-> @.epoch + 1]]
                          ELSE groups
           /\ workers' = [w \in W |->
